@@ -33,6 +33,7 @@ type scriptBackend struct {
 	writeSizes []int // per-call limits (0 = (0,nil)); nil = accept everything
 	writeErrAt int   // fail the k-th Write call (1-based); 0 = never
 	writeCalls int
+	shortCycle int // >0: accept 1..shortCycle bytes per call
 
 	sizes [][2]int
 }
@@ -62,6 +63,11 @@ func (b *scriptBackend) Write(p []byte) (int, error) {
 		return 0, errInjected
 	}
 	n := len(p)
+	if b.shortCycle > 0 {
+		if k := 1 + (b.writeCalls*7+3)%b.shortCycle; k < n {
+			n = k
+		}
+	}
 	if b.writeSizes != nil {
 		k := b.writeCalls - 1
 		if k < len(b.writeSizes) && b.writeSizes[k] < n {
